@@ -12,15 +12,19 @@ TECH = ("deterministic simulation with fault injection: real pipeline goroutines
         "scheduler and fs/stdin fault plan driven by one seeded tape, sequential reference model as oracle, tape shrinking and "
         "fresh-process replay")
 
+RACE_NOTE = (" Race leg: the interleaving is the real scheduler's (not tape-controlled); a report is sound, a clean leg is only as strong as the race "
+             "detector's happens-before analysis over the executed accesses.")
+RACE_TECH = "; plus a free-running -race leg over the same seeded worlds (interleavings inside one matcher/expression call have no visible operation for the cooperative scheduler)"
+
 CLAIMED = {
  "C01": dict(
-   text="Seeded search over schedules x read chunkings x tuning knobs of the real batchers+extractor pipeline; every run's counters and emitted (source,line,key) multiset are compared with a sequential reference classification. Evidence of absence over the explored runs, not proof.",
-   ref="DESIGN.md section 5 C01", note=NOTE, tech=TECH),
+   text="Seeded search over schedules x read chunkings x tuning knobs (-z with mixed plain/gzip inputs, -I, scanner-buffer and index-pool sizes) of the real batchers+extractor pipeline, API-level and through `rare filter` in-process; every run's counters and emitted (source,line,key) multiset are compared with a sequential reference classification. A free-running -race leg re-runs the same worlds truly in parallel (same oracle; a data race among pipeline goroutines is reported). Evidence of absence over the explored runs, not proof.",
+   ref="DESIGN.md section 5 C01 and 13.7", note=NOTE + RACE_NOTE, tech=TECH + RACE_TECH),
  "C02": dict(
-   text="Same simulated pipeline with a consumer that retains every match until the run ended; each match's source, line number, text, indices and key are re-read then and compared with stdlib regexp / reference dissect on private copies. Evidence over explored runs, not proof.",
-   ref="DESIGN.md section 5 C02", note=NOTE, tech=TECH),
+   text="Same simulated pipeline (incl. -z, -I, lines with case-changing and invalid UTF-8 bytes) with a consumer that retains every match until the run ended; each match's source, line number, text, indices and key are re-read then and compared with stdlib regexp / reference dissect on private copies; `rare --color filter` output with SGR codes stripped must be the matched lines byte for byte. A free-running -race leg re-runs the same worlds truly in parallel. Evidence over explored runs, not proof.",
+   ref="DESIGN.md section 5 C02 and 13.7", note=NOTE + RACE_NOTE, tech=TECH + RACE_TECH),
  "C04": dict(
-   text="Seeded search over byte strings x partitions of the stream into Read results (chunk sizes, 0-byte stalls, data-with-EOF, one injected non-EOF error) x buffer sizes for both scanners; every case is compared with a reference splitter on the delivered prefix, OnError is counted, and every returned slice is re-read after the scan (aliasing). Evidence over explored cases, not proof.",
+   text="Seeded search over byte strings (0-200 bytes dense in \\n and \\r, and long stall-heavy streams of 100-400 lines) x partitions of the stream into Read results (chunk sizes, 0-byte stalls in runs of up to 150, whole-line reads, data-with-EOF, one injected non-EOF error, sticky or transient) x buffer sizes for both scanners; every case is compared with a reference splitter on the delivered prefix, OnError is counted, and every returned slice is re-read after the scan (aliasing). Evidence over explored cases, not proof.",
    ref="DESIGN.md section 5 C04",
    note="Trusted: the 15-line reference splitter; the scripted reader is the only stub. No goroutines exist in this property; the 'schedule' is the read partition drawn from the tape.",
    tech="deterministic simulation with fault injection: scripted io.Reader (seeded read partition, stalls, EOF forms, injected error) under the real scanners, reference splitter oracle, retained-slice aliasing re-check, tape shrinking and fresh-process replay"),
@@ -33,8 +37,8 @@ CLAIMED["C05"] = dict(
    tech=TECH + "; plus a free-running -race leg over the same seeded worlds for the data-race clause")
 
 CLAIMED["C15"] = dict(
-   text="Seeded search over histories of append / pause / remove-after-drain / re-create applied by a simulated writer while the real notify and polling follow readers run under the tape-driven scheduler with the fake clock; at every Read return the delivered bytes must be a prefix of the appended bytes (no loss, duplicate or reordering; no EOF or error while the file exists), and within 10 simulated seconds after the last operation everything appended must have been delivered (plain follow after a final remove: io.EOF). Evidence over explored runs, not proof.",
-   ref="DESIGN.md section 5 C15",
+   text="Seeded search over histories of append / pause / remove-after-drain / re-create applied by a simulated writer while the real notify and polling follow readers run under the tape-driven scheduler with the fake clock; at every Read return the delivered bytes must be a prefix of the appended bytes (no loss, duplicate or reordering; no EOF or error while the file exists), and within 10 simulated seconds after the last operation everything appended must have been delivered (plain follow after a final remove: io.EOF). One run in four drives batchers.TailFilesToChan over 1-3 followed files instead (source names, gap-free line numbers, lines a prefix of the complete lines appended, the 250ms time flush, channel close when every file ended). Whether a re-created file gets the inode number of the removed one is decided by the tape (virtual file identity behind os.SameFile). Evidence over explored runs, not proof.",
+   ref="DESIGN.md section 5 C15 and 13.7",
    note=NOTE + " The fsnotify/inotify stub is trusted to be faithful for create/write/remove on one directory (FIFO, no loss, coalescing of an event identical to the newest unread one, non-remove events dropped when the file is gone at processing time, as fsnotify v1.4.9 does). Real kernel timing is not covered.",
    tech="deterministic simulation with fault injection: real follow readers on real scratch files inside one testing/synctest bubble, stubbed inotify event queue, writer client and reader scheduled by one seeded tape, fake clock for poll delays, prefix invariant at every step plus bounded liveness, tape shrinking and fresh-process replay")
 
@@ -51,14 +55,14 @@ CLAIMED["C03"] = dict(
    tech=TECH + "; metamorphic comparison across seeded variants of one scenario")
 
 CLAIMED["C13"] = dict(
-   text="Order-independence clauses only. Seeded search over scenarios (a multiset of keys/counts from comparator-stressing pools x histo/table/bars x sort mode and modifier), each run in-process under 4-6 variants that change only map-iteration salt, arrival order, schedule/worker count, division among files and read latencies (number of intermediate renders on the fake clock, which feeds the sorter instance a command keeps for life); the row/column label sequences of the final snapshots must be identical, `:reverse` must mirror, equivalent spellings must agree. Evidence over explored scenarios, not proof.",
-   ref="DESIGN.md section 5 C13",
-   note=NOTE + " Not decided (pure, no schedule in it): that numeric means magnitude, contextual calendar position, date chronological, value larger-first. One known finding (--sort date with keys of mixed layouts) is listed in known_findings.json.",
+   text="Order-independence for every key set, the meaning of a mode for key families where it is not in doubt. Seeded search over scenarios (a multiset of keys/counts from comparator-stressing pools x histo/table/bars x sort mode and modifier), each run in-process under 4-6 variants that change only map-iteration salt, arrival order, schedule/worker count, division among files and read latencies (number of intermediate renders on the fake clock, which feeds the sorter instance a command keeps for life); the row/column label sequences of the final snapshots must be identical, `:reverse` must mirror, equivalent spellings must agree. One scenario in three uses clean families (distinct integers/decimals, weekday/month names, dates of one layout, distinct totals) with independent sort modes for rows and columns; there the displayed order must equal the documented one (magnitude, calendar position, chronological, larger totals first, bytes). Evidence over explored scenarios, not proof.",
+   ref="DESIGN.md section 5 C13 and 13.7",
+   note=NOTE + " The meaning of a mode is decided only for the clean families (for arbitrary mixtures only order-independence, mirroring and spelling equivalence are). One known finding (--sort date with keys of mixed layouts) is listed in known_findings.json.",
    tech=TECH + "; metamorphic comparison of label sequences across seeded variants of one data set")
 
 CLAIMED["C10"] = dict(
-   text="Seeded search over templates (tree generator over the registered helper table; funcs files through the real loader with comments/blank lines/continuations and definitions calling earlier ones; {time live|delta|now}) evaluated by 1-4 workers that share one compiled, optimised expression and its context pools under the tape-driven scheduler with the fake clock advancing between lines; every emitted key is compared with a sequential un-optimised evaluation (funcs files: of the inlined tree with builtins only); live/delta must lie between the read and the consumption instant of their line, now must be the compile instant. A free-running -race leg covers pooled objects handed to two workers at once. Evidence over explored runs, not proof.",
-   ref="DESIGN.md section 5 C10",
+   text="Seeded search over templates (tree generator over the registered helper table; funcs files through the real loader with comments/blank lines/continuations and definitions calling earlier ones; {time live|delta|now}) evaluated by 1-4 workers that share one compiled, optimised expression and its context pools under the tape-driven scheduler with the fake clock advancing between lines; every emitted key is compared with a sequential un-optimised evaluation (funcs files: of the inlined tree with builtins only); live/delta must lie between the read and the consumption instant of their line, now must be the compile instant. A free-running -race leg covers pooled objects handed to two workers at once. One run in five goes through the command line: a funcs file loaded with --funcs under drawn global output flags (--noformat, --color/--nocolor, --nounicode, --notrim) must behave like its inlined body in `rare filter`, and `rare expression` must print the same text with and without --no-optimize, with the funcs file and inlined. Evidence over explored runs, not proof.",
+   ref="DESIGN.md section 5 C10 and 13.7",
    note=NOTE + " Templates whose reference form does not compile or panics are redrawn (C08's subject); file-reading helpers (load/lookup/haskey), color and nested-loop templates that exceed the step budget are not exercised.",
    tech=TECH + "; plus a free-running -race leg for shared pools")
 
@@ -99,7 +103,7 @@ def main():
         "setup_cmd": SETUP,
         "hooks": {
             "guard": "verif",
-            "enable": "no hook lives in /repo: every check copies /repo's working tree to a scratch directory, rewrites it there with /verif/sim/tool/siminstr (go statements, channel/lock/atomic/WaitGroup/sleep yields, tape-ordered select, ordered map ranges, os.Open/os.Stat/os.File/os.Stdin/signal.Notify seams), replaces github.com/fsnotify/fsnotify by /verif/sim/fsnotify, links /verif/sim/simrt, and builds with go1.26.8",
+            "enable": "no hook lives in /repo: every check copies /repo's working tree to a scratch directory, rewrites it there with /verif/sim/tool/siminstr (go statements, channel/lock/atomic/WaitGroup/sleep/len(chan) yields, tape-ordered select, ordered map ranges, os.Open/os.Stat/os.File/os.SameFile/os.Stdin/signal.Notify seams, knobs for the scanner-buffer and index-pool constants), replaces github.com/fsnotify/fsnotify by /verif/sim/fsnotify, links /verif/sim/simrt, and builds with go1.26.8",
             "baseline_off_cmd": "cd /repo && go test -vet=off -count=1 -timeout 25m ./...",
             "source_commits": [],
             "add_only": True,
